@@ -94,6 +94,11 @@ class Run:
             if not expect_oserror:
                 self.fail("unexpected-oserror", "%s raised %r" % (what, e))
             out = e
+        except KeyboardInterrupt:
+            # raised by the harness's own interrupting callback: a gated operation must refuse before it runs user callbacks
+            if expect_oserror:
+                self.fail("gate-missing", "%s ran the update callbacks although access mode %r forbids the operation (OSError expected)" % (what, self.case["mode"]))
+            raise
         except Exception as e:
             if expect_oserror:
                 self.fail("gate-wrong-exception", "%s raised %s(%s), OSError expected" % (what, type(e).__name__, e))
